@@ -106,9 +106,6 @@ type connKit struct {
 	serverAddr string
 	impl       controlConn
 
-	readDeadline  time.Time
-	writeDeadline time.Time
-
 	receiveSID [64]byte
 	sendSID    [64]byte
 
@@ -177,8 +174,6 @@ func (k *connKit) SetDeadline(t time.Time) error {
 //
 // NOTE: This is part of the net.Conn interface.
 func (k *connKit) SetReadDeadline(t time.Time) error {
-	k.readDeadline = t
-
 	timeout := time.Until(t)
 	if t.IsZero() {
 		timeout = math.MaxInt64
@@ -193,8 +188,6 @@ func (k *connKit) SetReadDeadline(t time.Time) error {
 //
 // NOTE: This is part of the net.Conn interface.
 func (k *connKit) SetWriteDeadline(t time.Time) error {
-	k.writeDeadline = t
-
 	timeout := time.Until(t)
 	if t.IsZero() {
 		timeout = math.MaxInt64
